@@ -989,7 +989,7 @@ def main(rep, tier, only):
     if only in (None, "W"):
         rule_witness(rep)
     try:
-        db = load.load(tier, lib=False, drivers=["drv_ranges"])
+        db = load.load(tier, lib=False, drivers=["drv_ranges"], tests=False)
     except PL.AnalysisBroken as e:
         if rep.viol:
             # the driver instantiates the same members the failing witnesses name; the path rules cannot run on this tree
